@@ -39,11 +39,41 @@ FRESH_METHODS = {
 }
 # methods that MUTATE their receiver
 MUTATING_METHODS = {"append", "extend", "insert", "remove", "pop", "clear", "sort", "reverse", "update", "setdefault", "add", "discard",
-                    "fill", "popitem", "__setitem__", "simplify", "write", "close", "set_axis_off", "set_axis_on"}
+                    "fill", "popitem", "__setitem__", "simplify", "intersection_update", "difference_update", "symmetric_difference_update",
+                    "__iadd__", "__ior__", "__iand__", "__isub__", "resize", "put", "itemset", "setflags", "partition", "byteswap",
+                    "appendleft", "extendleft", "popleft", "rotate", "move_to_end", "drop_duplicates_inplace", "write", "close", "set_axis_off", "set_axis_on"}
 # library functions that mutate argument 0
 MUTATING_CALLS = {"np.fill_diagonal": 0, "np.random.shuffle": 0, "plt.setp": None}
 # receivers that are renderer / process objects, not data the caller passed as such (drawing on an Axes is the function's purpose)
 EFFECT_RECEIVER_HINTS = ("ax", "axes", "fig", "cg", "child", "g", "plotter", "self", "p", "tree")
+
+
+MEMOISED_GLOBAL = set()       # names of memoised functions anywhere in the package (filled by scan_memoised)
+_MEMO_CACHE = {}
+
+
+def _is_cache_decorator(d):
+    name = dotted(d.func if isinstance(d, ast.Call) else d) or ""
+    last = name.split(".")[-1].lower()
+    return last in ("lru_cache", "cache", "cached", "memoize", "memoise", "memoized", "cached_property") or "cache" in last or "memo" in last
+
+
+def memoised_functions(module):
+    """names of the module's functions (and methods) wrapped by a caching decorator"""
+    key = id(module)
+    if key not in _MEMO_CACHE:
+        out = set()
+        for n in ast.walk(module.tree):
+            if isinstance(n, (ast.FunctionDef, ast.AsyncFunctionDef)) and any(_is_cache_decorator(d) for d in n.decorator_list):
+                out.add(n.name)
+        _MEMO_CACHE[key] = out
+    return _MEMO_CACHE[key]
+
+
+def scan_memoised(modules):
+    MEMOISED_GLOBAL.clear()
+    for m in modules:
+        MEMOISED_GLOBAL.update(memoised_functions(m))
 
 
 def dotted(n):
@@ -132,6 +162,9 @@ class FunctionFrame:
                     return {"fresh"}
                 if e.func.attr in ("str", "iloc", "loc", "values", "flat"):
                     return self.expr_origins(e.func.value)
+            if short in memoised_functions(self.module) or short in MEMOISED_GLOBAL:
+                # the result of a memoised function is shared between all calls with the same arguments: it is module state
+                return {f"module:memoised result of {short}()"}
             # repo functions and unknown callables: their results are treated as fresh (pyrepseq functions return new objects or
             # one of the ALIAS_CALLS above); recorded so that the evidence can list them
             return {"fresh"}
